@@ -643,6 +643,7 @@ impl Ctx {
         };
         let only_worker = self.replay.as_ref().map(|r| r.worker);
         let stop = AtomicBool::new(false);
+        let winner = std::sync::atomic::AtomicU32::new(u32::MAX);
         let distinct: Mutex<HashSet<u64>> = Mutex::new(HashSet::new());
         let capped = AtomicBool::new(false);
         let stats = Mutex::new(SubStats {
@@ -663,6 +664,7 @@ impl Ctx {
                     continue;
                 }
                 let make_strategy = &make_strategy;
+                let winner = &winner;
                 let stop = &stop;
                 let distinct = &distinct;
                 let capped = &capped;
@@ -724,6 +726,10 @@ impl Ctx {
                         };
                         let result = runner.run(&strategy, |v| {
                             if failed_once.get() {
+                                // another worker reports its failure: end this shrink quickly
+                                if winner.load(Ordering::Relaxed) != w {
+                                    return Ok(());
+                                }
                                 // shrinking: evaluate the oracle only, no bookkeeping
                                 return match catch(|| f(&v)) {
                                     Ok(Ok(_)) => Ok(()),
@@ -793,6 +799,7 @@ impl Ctx {
                                     Err(fl) => {
                                         failed_once.set(true);
                                         stop.store(true, Ordering::Relaxed);
+                                        let _ = winner.compare_exchange(u32::MAX, w, Ordering::SeqCst, Ordering::SeqCst);
                                         let m = fl.msg.clone();
                                         *last_fail.borrow_mut() = Some(fl);
                                         Err(TestCaseError::fail(m))
@@ -803,6 +810,7 @@ impl Ctx {
                         flush(&mut local.borrow_mut(), &mut local_keys.borrow_mut());
                         match result {
                             Ok(()) => {}
+                            Err(TestError::Fail(_, _)) if winner.load(Ordering::SeqCst) != w => {}
                             Err(TestError::Fail(reason, value)) => {
                                 // Re-evaluate the shrunk value to get its own signature/message.
                                 let fl = match catch(|| f(&value)) {
